@@ -361,6 +361,9 @@ func init() {
 			rewrittenLine = "recv.next - " + hint
 			return "ok none"
 		}
+		if u.NameInfo.Kind != snapshot.KindSnapshot {
+			return "FAIL a-file-that-is-not-a-snapshot-was-handed-to-the-merge-loop " + u.NameInfo.FullName
+		}
 		rcv.held = &u
 		rcv.heldID = recvTok(u.NameInfo.FullName)
 		rcv.delivered[u.NameInfo.FullName] = true
